@@ -306,6 +306,15 @@ func (nfs *Nfs) NFSPROC3_WRITE(args nfstypes.WRITE3args) nfstypes.WRITE3res {
 		errRet(op, &reply.Status, nfstypes.NFS3ERR_INVAL)
 		return reply
 	}
+	if uint64(args.Count) > uint64(len(args.Data)) {
+		errRet(op, &reply.Status, nfstypes.NFS3ERR_INVAL)
+		return reply
+	}
+	if util.SumOverflows(uint64(args.Offset), uint64(args.Count)) ||
+		uint64(args.Offset)+uint64(args.Count) > inode.MaxFileSize() {
+		errRet(op, &reply.Status, nfstypes.NFS3ERR_FBIG)
+		return reply
+	}
 	count, writeOk := ip.Write(op.Atxn, uint64(args.Offset), uint64(args.Count),
 		args.Data)
 	if !writeOk {
